@@ -6,6 +6,12 @@ modelling/virial.py `fit`; core/modelisotherm.py `__init__` branch selection and
                            Virial: the same without the range,
 * `clamp`, `clampGuess` – `initial_guess_bounds` (an infinite bound is `none`),
 * `best`                – `attempts[errors.index(min(errors))]` : first attempt with the smallest error,
+* `attemptsFrom`, `guessIdx` – the whole loop of `ModelIsotherm.guess`: candidates are tried in the order given, a candidate
+                           whose fit is refused (`CalculationError`, here `none`) leaves NO attempt behind; the result is the
+                           position IN THE CANDIDATE LIST of the attempt picked by `best` (fed by the harness with the list of
+                           (converged?, reported error) in candidate order, for every entry point),
+* `costErrSq`           – what an error derived from the optimiser's cost (`2·cost/n`, `cost = ½ Σ f_scale²·ρ((r/f_scale)²)`)
+                           would be: equal to `rmseSq` only for the linear loss `ρ = id`,
 * `selectBranch`        – `data.loc[data['branch'] == 0 | 1]`,
 * `inBounds`            – what "parameters respect the bounds in force" means.
 
@@ -52,6 +58,26 @@ def bestIdxAux : List α → Nat → Nat → α → Nat
 def bestIdx : List α → Option Nat
   | [] => none
   | e :: es => some (bestIdxAux es 1 0 e)
+
+/-- `ModelIsotherm.guess`: (position in the candidate list, reported error) of the attempts, in the order tried;
+a candidate that did not converge (`none`) is skipped. `i` = position of the head of the list. -/
+def attemptsFrom : Nat → List (Option α) → List (Nat × α)
+  | _, [] => []
+  | i, none :: cs => attemptsFrom (i + 1) cs
+  | i, some e :: cs => (i, e) :: attemptsFrom (i + 1) cs
+
+/-- position in the candidate list of the model returned by `ModelIsotherm.guess`
+(`errors = [x.model.rmse for x in attempts]; attempts[errors.index(min(errors))]`); `none` = "No model could be reliably fit" -/
+def guessIdx (cs : List (Option α)) : Option Nat :=
+  let as := attemptsFrom 0 cs
+  match bestIdx (as.map (·.2)) with
+  | none => none
+  | some k => (as[k]?).map (·.1)
+
+/-- square of an error computed from the optimiser's cost instead of the residuals: scipy `least_squares` returns
+`cost = ½ Σ f_scale² ρ((r / f_scale)²)` for the loss `ρ`; `2 cost / n / range²` -/
+def costErrSq (rho : α → α) (fscale : α) (rs : List α) (range : α) : α :=
+  ((rs.map (fun r => fscale * fscale * rho ((r / fscale) * (r / fscale)))).sum / (rs.length : α)) / (range * range)
 
 /-- rows of the requested branch (`0` adsorption, `1` desorption), order kept -/
 def selectBranch {β : Type} (rows : List (β × Nat)) (b : Nat) : List β :=
